@@ -5,7 +5,7 @@ C06 dask-mode table, C10 metric pairing, C19 coordinates), so the harness lives 
 """
 from __future__ import annotations
 
-from .absint import TOP, Evaluator, Obj, Sym, Text, Unmodelled
+from .absint import TOP, Evaluator, Obj, Sym, Text, Unmodelled, xr_mapping_arg
 from .registry import parse_signature
 from .xmodel import COMMON_MODELS, dimsym, make_da, make_grid
 
@@ -162,7 +162,7 @@ def m_apply_ufunc(ev, args, kw, node):
     ev.events.append(("xr.apply_ufunc", list(args), dict(kw), node))
     ocd = kw.get("output_core_dims")
     outs = []
-    if isinstance(ocd, list):
+    if isinstance(ocd, (list, tuple)):
         for od in ocd:
             outs.append(Obj("DataArray", "RESULT", (), {"dims": (Sym("t"),) + tuple(od), "__isinstance__": ("DataArray",), "from": list(args[1:])}))
     if not outs:
@@ -241,3 +241,74 @@ def foreign_ops(effs, expected=()):
             continue
         (changing if op in VALUE_CHANGING_OPS else unknown).append(op)
     return changing, unknown
+
+
+# ------------------------------------------------------------------ coordinates carried through xarray's coordinate API
+def coord_tracking_models():
+    """Method / attribute models under which a modelled DataArray carries its coordinates (attrs['coords']: name -> dims,
+    an index coordinate being one named like a dimension) through xarray's coordinate API."""
+    def names_of(arg):
+        if isinstance(arg, dict):
+            return list(arg)
+        if isinstance(arg, (list, tuple, set, frozenset)):
+            return list(arg)
+        if isinstance(arg, (Sym, str)):
+            return [arg]
+        raise Unmodelled(f"coordinate names {arg!r}")
+
+    def coords_of(o):
+        return dict(o.attrs.get("coords", {}))
+
+    def reset_coords(ev, recv, args, kw, node):
+        if kw.get("drop") is not True and not (len(args) > 1 and args[1] is True):
+            raise Unmodelled("reset_coords without drop=True turns the array into a dataset", node)
+        cur = coords_of(recv)
+        names = names_of(args[0]) if args and args[0] is not None else [k for k in cur if k not in recv.attrs.get("dims", ())]
+        return recv.with_eff(("reset_coords", tuple(args), tuple(sorted(kw.items()))), coords={k: v for k, v in cur.items() if k not in names})
+
+    def reset_index(ev, recv, args, kw, node):
+        names = names_of(args[0] if args else kw.get("dims_or_levels"))
+        cur = coords_of(recv)
+        if kw.get("drop") is True:
+            cur = {k: v for k, v in cur.items() if k not in names}
+        return recv.with_eff(("reset_index", tuple(args), tuple(sorted(kw.items()))), coords=cur)
+
+    def drop_vars(ev, recv, args, kw, node):
+        names = names_of(args[0] if args else kw.get("names"))
+        cur = {k: v for k, v in coords_of(recv).items() if k not in names}
+        return recv.with_eff(("drop_vars", tuple(names)), coords=cur)
+
+    def copy(ev, recv, args, kw, node):
+        return recv.with_eff(("copy",))
+
+    def rename(ev, recv, args, kw, node):
+        m = xr_mapping_arg("rename", args, kw)
+        if m is None:  # rename("new name") renames the array itself
+            return recv.with_eff(("rename", tuple(args), tuple(sorted(kw.items()))), name=args[0])
+        dims = tuple(m.get(d, d) for d in recv.attrs.get("dims", ()))
+        # renaming a dimension renames the index coordinate of that name with it, and the dimension inside every coordinate
+        cur = {m.get(k, k): tuple(m.get(d, d) for d in v) for k, v in coords_of(recv).items()}
+        return recv.with_eff(("rename", tuple(args), tuple(sorted(kw.items(), key=lambda kv: str(kv[0])))), dims=dims, coords=cur)
+
+    mm = {("DataArray", "reset_coords"): reset_coords, ("DataArray", "reset_index"): reset_index, ("DataArray", "drop_vars"): drop_vars,
+          ("DataArray", "copy"): copy, ("DataArray", "rename"): rename}
+    am = {("DataArray", "coords"): lambda ev, o, n: coords_of(o), ("DataArray", "indexes"): lambda ev, o, n: {k: v for k, v in coords_of(o).items() if k in o.attrs.get("dims", ())},
+          ("DataArray", "xindexes"): lambda ev, o, n: {k: v for k, v in coords_of(o).items() if k in o.attrs.get("dims", ())}}
+    return mm, am
+
+
+
+
+def applied_function(a0, ufunc_kwargs):
+    """The function xr.apply_ufunc is applied to and the keyword arguments it will be called with: either
+    apply_ufunc(f, ..., kwargs={...}) or apply_ufunc(functools.partial(f, **{...}), ...) (which is what apply_ufunc does itself)."""
+    from .absint import PartialV
+
+    kk = dict(ufunc_kwargs.get("kwargs") or {})
+    if isinstance(a0, PartialV) and a0.kind == "partial":
+        if a0.args:
+            raise Unmodelled("functools.partial with positional arguments as the applied function")
+        inner, more = applied_function(a0.f, {"kwargs": a0.kwargs})
+        more.update(kk)
+        return inner, more
+    return a0, kk
